@@ -215,8 +215,8 @@ def run_shard(acc, shard, nshards, seed, tier):
         return dict(key=key, nontrivial=nt, classes=cl, violations=vios,
                     sample=dict(routes=spec['routes'], data=spec['data'], minutes=spec['n'], fast=spec['fast'], warm_up=spec['cfg']['warm_up'],
                                 hooks_observed=sum(1 for e in r['trace'] if e['ev'] == 'hook')) if nt else None)
-    for name, s_, n in (('step', step, 10), ('fast', fast, 6), ('fast-odd-length', fast_odd, 4)):
-        runner.hyp_search(acc, s_, lambda spec, name=name: dict(chk(spec), sub=name), n if tier == 'quick' else n * 120, seed + len(name), tier,
+    for name, s_, n in (('step', step, 18), ('fast', fast, 12), ('fast-odd-length', fast_odd, 6)):
+        runner.hyp_search(acc, s_, lambda spec, name=name: dict(chk(spec), sub=name), n if tier == 'quick' else n * 70, seed + len(name), tier,
                           known=known, shrink_calls=15, max_shrink_sigs=1, describe=lambda spec: dict(spec=spec))
     direct = st.fixed_dictionaries(dict(kind=st.just('direct'), seed=st.integers(0, 2 ** 31), n=st.integers(1, 400),
                                         tf=st.sampled_from(list(TFM)), part=st.integers(1, 400)))
